@@ -1,7 +1,7 @@
 """C01 — message encode/decode round trip preserves every field (symmetry conditions)."""
 from ..facts import Program, AnalysisBroken, WITNESS_FIELDS
 from .. import q
-from . import c08, c09
+from . import c08, c09, c02
 
 CLAIM = {
     'text': 'Symmetry conditions without which decode cannot invert encode, whatever the values: the five consumers of a repeating-group '
@@ -94,4 +94,6 @@ def run(ctx):
                   'Field<fp_type,N>(text) sets _precision to the constant `%s`: text with more fraction digits cannot re-encode to identical bytes (44=1.2345 → 44=1.23)' % pi[0].text())
     ctx.floor('R01.1', 5)
     ctx.floor('R01.2', 24)
+    # R01.6 every present field is encoded: the position index keeps all fields that share a position (rule of C02 R02.5)
+    c02.pos_type_rule(ctx, prog, 'R01.6')
     ctx.floor('R01.5', 2)
